@@ -19,6 +19,7 @@ package main
 // which zone or layout is right.
 
 import (
+	"bytes"
 	"context"
 	"encoding/json"
 	"fmt"
@@ -156,11 +157,29 @@ func tsExtract(format string, p []byte) (string, error) {
 		if err := json.Unmarshal(p, &m); err != nil {
 			return "", fmt.Errorf("record is not JSON: %v", err)
 		}
-		s, ok := m["time"].(string)
-		if !ok {
-			return "", fmt.Errorf("no string field \"time\"")
+		// the record's own time field is the FIRST member named "time" (an attribute may use the name too)
+		dec := json.NewDecoder(bytes.NewReader(p))
+		if t, err := dec.Token(); err != nil || t != json.Delim('{') {
+			return "", fmt.Errorf("record is not a JSON object")
 		}
-		return s, nil
+		for dec.More() {
+			kt, err := dec.Token()
+			if err != nil {
+				return "", fmt.Errorf("record is not JSON: %v", err)
+			}
+			var raw json.RawMessage
+			if err := dec.Decode(&raw); err != nil {
+				return "", fmt.Errorf("record is not JSON: %v", err)
+			}
+			if k, _ := kt.(string); k == "time" {
+				var s string
+				if err := json.Unmarshal(raw, &s); err != nil {
+					return "", fmt.Errorf("first member \"time\" is not a string")
+				}
+				return s, nil
+			}
+		}
+		return "", fmt.Errorf("no string field \"time\"")
 	case "logfmt":
 		s := strings.TrimRight(string(p), "\n")
 		if strings.HasPrefix(s, "{") || strings.Contains(s, "\x1b[") {
@@ -234,7 +253,13 @@ func tsSetFormat(l *slog.Entry, format string) {
 // the destination received.
 func tsEmit(l *slog.Entry, ts time.Time) ([]byte, error) {
 	sink.reset()
-	l.WriteThru(context.Background(), slog.InfoLevel, ts, 0, "m", nil)
+	var attrs slog.Attrs
+	if ts.Nanosecond()%3 == 2 {
+		// the record also carries attributes, one of them named like the time field and holding ANOTHER
+		// instant in another zone: the record's timestamp is still the record's own instant
+		attrs = slog.NewAttrs("k", 1, "time", ts.Add(-37*time.Hour-13*time.Minute).In(time.FixedZone("", -9*3600-1800)))
+	}
+	l.WriteThru(context.Background(), slog.InfoLevel, ts, 0, "m", attrs)
 	var got [][]byte
 	for _, e := range sink.take() {
 		if e.K == "w" {
@@ -376,6 +401,25 @@ func tsSampleNanos(rng *rand.Rand) int {
 func tsSampleInstant(rng *rand.Rand) (time.Time, tsInstant) {
 	for {
 		loc, d := tsSampleZone(rng)
+		if x := rng.Intn(100); x < 4 {
+			// edge instants: the zero value of time.Time (what "no time given" looks like elsewhere - here it
+			// is an instant like any other), the Unix epoch, the last representable second of year 9999
+			var tm time.Time
+			switch x {
+			case 0, 1:
+				tm = time.Time{}.In(loc)
+			case 2:
+				tm = time.Unix(0, 0).In(loc)
+			default:
+				tm = time.Date(9999, 12, 31, 23, 59, 59, 999999999, time.UTC).In(loc)
+			}
+			if y := tm.Year(); y >= 1 && y <= 9999 {
+				if y := tm.UTC().Year(); y >= 1 && y <= 9999 {
+					return tm, tsDescribe(tm, d)
+				}
+			}
+			continue
+		}
 		var year int
 		switch x := rng.Intn(100); {
 		case x < 40:
